@@ -35,12 +35,15 @@ Theorem C19_char_spec :
 Proof. exact char_correct. Qed.
 Print Assumptions C19_char_spec.
 
-(* string.rep, counts n >= 0: the manual's result whenever it fits a string,
-   the overflow error exactly when it does not (the three wrapped products and
-   the sum are tested exactly). *)
+(* string.rep, counts n >= 0 (maxRepSize = 2^40, the largest result rep agrees
+   to build): the manual's result whenever its length is within the bound (or
+   n = 1: s itself), "resulting string too large" between the bound and 2^63,
+   the overflow error from 2^63 on — the three wrapped products and the sum
+   are tested exactly, so no size reaches a Go allocation that cannot succeed *)
 Theorem C19_rep_spec_partial :
   forall s n sep, str_ok s -> osep_ok sep -> in64 n -> 0 <= n ->
-  (rep_len s n sep < 2^63 -> rep_im s n sep = Ok (rep_spec s n sep)) /\
+  (n = 1 \/ rep_len s n sep <= maxRepSize -> rep_im s n sep = Ok (rep_spec s n sep)) /\
+  (2 <= n -> maxRepSize < rep_len s n sep < 2^63 -> rep_im s n sep = Err ETooLarge) /\
   (2^63 <= rep_len s n sep -> rep_im s n sep = Err EOverflow).
 Proof. exact rep_correct_nonneg. Qed.
 Print Assumptions C19_rep_spec_partial.
